@@ -294,6 +294,11 @@ func (bs *BinarySpray) NotifyNewBundle(bp BundleDescriptor) {
 			remainingCopies: bs.l,
 		}
 
+		// if the bundle has a PreviousNodeBlock, add it to the list of nodes which we know to have the bundle
+		if pnBlock, err := bp.MustBundle().ExtensionBlock(bpv7.ExtBlockTypePreviousNodeBlock); err == nil {
+			metadata.sent = append(metadata.sent, pnBlock.Value.(*bpv7.PreviousNodeBlock).Endpoint())
+		}
+
 		bs.dataMutex.Lock()
 		bs.bundleData[bp.Id] = metadata
 		bs.dataMutex.Unlock()
